@@ -79,6 +79,16 @@ func (s *DiscoveryStrategy) GetRoutableEndpoints(
 
 	// no healthy endpoints have the model - trigger discovery refresh if configured
 	if !s.options.DiscoveryRefreshOnMiss {
+		// Without a refresh there is nothing more to learn, so the configured fallback applies
+		// right away: "all" sends the request to the healthy endpoints it was offered
+		if s.options.FallbackBehavior == constants.FallbackBehaviorAll && len(healthyEndpoints) > 0 {
+			return healthyEndpoints, ports.NewRoutingDecision(
+				s.Name(),
+				ports.RoutingActionFallback,
+				constants.RoutingReasonModelUnavailableNoRefresh,
+			), nil
+		}
+
 		s.logger.Debug("Discovery refresh disabled, rejecting request",
 			"model", modelName)
 
